@@ -344,25 +344,32 @@ pub fn summarize(res: McResult, rec: &Rc<RefCell<Vec<String>>>) -> RunOut {
     }
 }
 
-pub fn print_run(k: usize, out: &RunOut) {
-    println!(
+pub fn run_lines(k: usize, out: &RunOut) -> Vec<String> {
+    let mut v = vec![format!(
         "run {} result={} evaluated={} collected={}",
         k,
         out.result,
         out.evaluated.len(),
         out.collected.len()
-    );
+    )];
     for e in &out.evaluated {
-        println!("E {}", e);
+        v.push(format!("E {}", e));
     }
     for c in &out.collected {
-        println!("C {}", c);
+        v.push(format!("C {}", c));
     }
     if let Some(t) = &out.err_trace {
-        println!("T {}", t);
+        v.push(format!("T {}", t));
     }
     if out.result == "ok" {
-        println!("stat {}", show_list(&out.stat));
+        v.push(format!("stat {}", show_list(&out.stat)));
+    }
+    v
+}
+
+pub fn print_run(k: usize, out: &RunOut) {
+    for l in run_lines(k, out) {
+        println!("{}", l);
     }
 }
 
